@@ -673,3 +673,14 @@ mod tests {
         assert_close(&x_rec, &x, 1e-12);
     }
 }
+
+#[cfg(nuts_rs_verif)]
+pub mod verif_reexport {
+    pub use super::adapt::{
+        DiagAdaptStrategy, DrawGradCollector, LowRankMassMatrixStrategy, MassMatrixAdaptStrategy,
+    };
+    pub use super::diagonal::DiagMassMatrix;
+    pub use super::external::ExternalTransformation;
+    pub use super::low_rank::LowRankMassMatrix;
+    pub use super::transformation::Transformation;
+}
